@@ -22,7 +22,8 @@ const GOWN: f64 = 2.5; // gradient of a quote given as a dual number w.r.t. its 
 
 #[derive(Clone, Debug, Serialize, Deserialize, PartialEq, Eq, Hash)]
 pub enum Act {
-    /// (quote index, value index) items; form of the new quotes: 0 floats, 1 Duals, 2 Dual2s (own variable)
+    /// (quote index, value index) items; form of the new quotes: 0 floats, 1 Duals, 2 Dual2s (own variable), 3 Duals
+    /// without any variable
     Update { items: Vec<(usize, u8)>, form: u8 },
     /// 0 reversed pair, 1 unquoted pair of known currencies, 2 foreign currency, 3 inconsistent settlement, 4 valid + foreign,
     /// 5 the same pair twice, both with an inconsistent settlement
@@ -53,6 +54,9 @@ pub enum Case {
     Explore { market: Market, nvals: u8 },
     /// one explicit history (replay of a BFS discovery)
     History { market: Market, nvals: u8, actions: Vec<Act> },
+    /// EVERY history of exactly `depth` actions over `alphabet` that starts with `prefix`, executed one by one without
+    /// merging states (so that state the key cannot see - a cache, a stash - cannot hide behind an equal key)
+    Deep { market: Market, alphabet: Vec<Act>, prefix: Vec<Act>, depth: usize },
 }
 
 fn ccy(i: usize) -> Ccy {
@@ -288,6 +292,7 @@ fn mk_rate(m: &Market, sc: u8, i: usize, vi: u8, form: u8) -> FXRate {
     let num = match form {
         0 => Number::F64(v),
         1 => Number::Dual(Dual::new(v, vec![format!("u{}", i)])),
+        3 => Number::Dual(Dual::new(v, vec![])),
         _ => Number::Dual2(Dual2::try_new(v, vec![format!("u{}", i)], vec![1.0], vec![0.125]).unwrap()),
     };
     FXRate::try_new(CCYS[a], CCYS[b], num, settle_of(sc)).unwrap()
@@ -564,7 +569,7 @@ pub fn actions_of(m: &Market, nvals: u8) -> Vec<Act> {
                 })
                 .collect();
             // markets of up to 3 currencies also get second-order quotes
-            let forms: &[u8] = if q <= 2 { &[0, 1, 2] } else { &[0, 1] };
+            let forms: &[u8] = if q == 1 { &[0, 1, 2, 3] } else if q <= 2 { &[0, 1, 2] } else { &[0, 1] };
             for form in forms {
                 out.push(Act::Update { items: items.clone(), form: *form });
             }
@@ -662,8 +667,55 @@ fn check_history(case: &Case, idx: u64, acc: &mut Acc) {
     }
 }
 
+fn deep_dfs(m: &Market, st: &St, alphabet: &[Act], left: usize, path: &mut Vec<Act>, idx: u64, acc: &mut Acc) -> bool {
+    if left == 0 {
+        acc.outcome(&st.key);
+        return true;
+    }
+    for a in alphabet {
+        acc.eval();
+        let nx = apply(m, st, a);
+        path.push(a.clone());
+        if let Some((k, msg)) = &nx.bad {
+            acc.violate(&format!("deep-{}", k), idx, serde_json::to_value(Case::History { market: m.clone(), nvals: 3, actions: path.clone() }).unwrap(), json!("all history oracles hold"), json!(msg));
+            path.pop();
+            return false;
+        }
+        let ok = deep_dfs(m, &nx, alphabet, left - 1, path, idx, acc);
+        path.pop();
+        if !ok {
+            return false;
+        }
+    }
+    true
+}
+
+fn check_deep(case: &Case, idx: u64, acc: &mut Acc) {
+    let (m, alphabet, prefix, depth) = match case {
+        Case::Deep { market, alphabet, prefix, depth } => (market, alphabet, prefix, *depth),
+        _ => unreachable!(),
+    };
+    let mut st = init_state(m);
+    let mut path = vec![];
+    for a in prefix {
+        acc.eval();
+        st = apply(m, &st, a);
+        path.push(a.clone());
+        if let Some((k, msg)) = &st.bad {
+            acc.violate(&format!("deep-{}", k), idx, serde_json::to_value(Case::History { market: m.clone(), nvals: 3, actions: path.clone() }).unwrap(), json!("all history oracles hold"), json!(msg));
+            return;
+        }
+    }
+    acc.nontrivial();
+    deep_dfs(m, &st, alphabet, depth.saturating_sub(prefix.len()), &mut path, idx, acc);
+    if idx % 97 == 0 {
+        acc.sample(|| json!({"deep": {"market": m, "alphabet_size": alphabet.len(), "depth": depth, "prefix": prefix}}));
+    }
+}
+
 pub fn check(case: &Case, idx: u64, acc: &mut Acc) {
     match case {
+        Case::Deep { .. } => check_deep(case, idx, acc),
         Case::Sens { .. } => check_sens(case, idx, acc),
         Case::Explore { .. } => check_explore(case, idx, acc),
         Case::History { .. } => check_history(case, idx, acc),
@@ -723,6 +775,22 @@ pub fn cases(tier: Tier) -> Vec<Case> {
     for m in markets {
         let nv = if m.n == 4 { 2 } else { nvals };
         out.push(Case::Explore { market: m, nvals: nv });
+    }
+    // deep histories on the smallest markets, state by state without merging: one quote (depth 5, thorough 6) and a
+    // chain of two quotes (depth 5 over a smaller alphabet)
+    {
+        let upd = |items: Vec<(usize, u8)>, form: u8| Act::Update { items, form };
+        let m1 = Market { n: 2, quotes: vec![(0, 1)], settle: false, base: None, rolls: vec![] };
+        let a1 = vec![upd(vec![(0, 0)], 0), upd(vec![(0, 1)], 0), upd(vec![(0, 0)], 3), upd(vec![(0, 1)], 1), upd(vec![(0, 1)], 2), Act::SetOrder(0), Act::SetOrder(1), Act::SetOrder(2), Act::BadUpdate(2), Act::Roll(1), Act::Roll(0)];
+        let m2 = Market { n: 3, quotes: vec![(0, 1), (2, 1)], settle: true, base: None, rolls: vec![] };
+        let a2 = vec![upd(vec![(0, 1)], 0), upd(vec![(1, 1)], 3), upd(vec![(0, 0), (1, 0)], 0), Act::SetOrder(0), Act::SetOrder(1), Act::SetOrder(2), Act::BadUpdate(3), Act::Roll(0)];
+        for (m, a, depth) in [(m1, a1, tier.pick(5usize, 6usize)), (m2, a2, tier.pick(5usize, 6usize))] {
+            for x in a.iter() {
+                for y in a.iter() {
+                    out.push(Case::Deep { market: m.clone(), alphabet: a.clone(), prefix: vec![x.clone(), y.clone()], depth });
+                }
+            }
+        }
     }
     // histories on large markets (chain, star, caterpillar on 10, 12, 13 currencies): EVERY action sequence of length
     // <= 2 (thorough: 3) over a reduced alphabet, run with the same transition function and oracles as the BFS
